@@ -50,8 +50,11 @@ def run_history(case):
     from mxlpy import Model
 
     ops, start = case["ops"], case.get("check_from", 0)
+    import copy
+
     m = Model()
     R, S = [], []
+    originals = []  # (model that was deep-copied, its content and ids at that moment)
     for i, op in enumerate(ops):
         check = i >= start
         before = O.snapshot(m) if check else None
@@ -60,6 +63,9 @@ def run_history(case):
         out = "ok"
         if op[0] == "q":
             ans = O.run_query(m, op)
+        elif op[0] == "fork":
+            originals.append((m, O.snapshot(m), O.ids_of(m)))
+            m = copy.deepcopy(m)
         else:
             try:
                 O.apply_mut(m, op)
@@ -73,11 +79,11 @@ def run_history(case):
             if out != "ok":
                 r["changed"] = after != before or r["ids"] != ids_before
             s = {"keys": r["keys"], "changed": False, "ans": None, "effect": "as documented"}
-            if out == "ok" and op[0] != "q":
+            if out == "ok" and op[0] not in ("q", "fork"):
                 exp = c03spec.expected_content(before, op)
                 if exp is not None and exp != after:
                     r["effect"] = {"content differs in": [k for k in O.KEYS if exp[k] != after[k]]}
-            exp = c03spec.expected_outcome(before, op) if op[0] != "q" else "ok"
+            exp = c03spec.expected_outcome(before, op) if op[0] not in ("q", "fork") else "ok"
             s["out"] = r["out"] if exp is None else exp
             try:
                 fresh = O.fresh_model(after)
@@ -92,6 +98,22 @@ def run_history(case):
                 s["prefix"] = True
         R.append(r)
         S.append(s)
+    if originals and S and S[-1] is not None:
+        # edits of a deep copy never reach the model it was copied from
+        probe = ["q", "argsro", ["2", "3", "1"], "1"]
+        bad = []
+        for j, (orig, snap, ids) in enumerate(originals):
+            if O.snapshot(orig) != snap or O.ids_of(orig) != ids:
+                bad.append([j, "content or ids of the original changed"])
+                continue
+            try:
+                want = O.run_query(O.fresh_model(snap), probe)
+            except Exception:  # noqa: BLE001
+                continue
+            if O.run_query(orig, probe) != want:
+                bad.append([j, "the original answers differently from a fresh model with its content"])
+        R[-1]["forks"] = bad or "intact"
+        S[-1]["forks"] = "intact"
     return R, S
 
 
@@ -127,6 +149,8 @@ def model_histories(cases):
                     ans = {"ok": C.canon_stoich({cp: dict(row) for cp, row in ans["ok"]})}
                 elif "ok" in ans and q[1] == "stoichvar":
                     ans = {"ok": sorted(ans["ok"])}
+                elif "ok" in ans and q[1] == "names" and q[2] == "unused":
+                    ans = {"ok": sorted(ans["ok"])}
             obs.append({"out": o["out"], "ids": sorted(o["ids"]), "keys": o["keys"], "ans": ans})
         out.append(obs)
     return out
@@ -135,6 +159,8 @@ def model_histories(cases):
 def canon_model_ans(a):
     if "err" in a:
         cls = a["err"][0]
+        if cls == "Other":  # Err.other carries the class name (ArityMismatchError)
+            cls = a["err"][1]
         if cls == "MissingDependenciesError":
             return {"err": [cls, sorted([k, sorted(v)] for k, v in a["err"][1])]}
         return {"err": [cls]}
@@ -165,8 +191,8 @@ def diffs(R, S):
     for i, (r, s) in enumerate(zip(R, S)):
         if s is None:
             continue
-        for key in ("out", "changed", "effect", "ids", "ans"):
-            if r[key] != s[key]:
+        for key in ("out", "changed", "effect", "ids", "ans", "forks"):
+            if r.get(key) != s.get(key):
                 out.append((i, key))
                 break
     return out
@@ -184,6 +210,8 @@ def m_view(r, mobs):
     v["effect"] = r["effect"]
     if "prefix" in r:
         v["prefix"] = True
+    if "forks" in r:
+        v["forks"] = r["forks"]
     return v
 
 
@@ -203,9 +231,12 @@ def check_history(arg):
     if any(_big(R[i]["ans"]) for i in idx):
         rep["skipped"] = True
         return rep
-    rep["muts"] = [ops[i][0] for i in idx if ops[i][0] != "q"]
+    rep["muts"] = [ops[i][0] for i in idx if ops[i][0] not in ("q", "fork")]
+    rep["queries"] = [ops[i][1] + (":" + ops[i][2] if ops[i][1] == "names" else "") for i in idx if ops[i][0] == "q"]
     for i in idx:
-        if ops[i][0] == "q":
+        if ops[i][0] == "fork":
+            k = "fork"
+        elif ops[i][0] == "q":
             a = R[i]["ans"] or {}
             k = "query:" + ("ok" if "ok" in a else a.get("err", ["?"])[0])
         else:
@@ -233,6 +264,9 @@ def check_history(arg):
 def signature(case, i, kind):
     op = case["ops"][i]
     prev = next((o[0] for o in reversed(case["ops"][:i]) if o[0] != "q"), "-")
+    if op[0] == "q" and op[1] not in ("init", "pvals", "classes", "args", "argsro", "rhs", "fluxes", "call", "stoich",
+                                      "stoichvar"):
+        return f"{kind}@{op[1]}-after-{prev}"
     return f"{kind}@{op[0] if op[0] != 'q' else 'query-after-' + prev}"
 
 
@@ -297,6 +331,8 @@ class Judge:
         cov = ctx.extra_cov
         for o in rep["muts"]:
             cov.setdefault("mutators_hit", {})[o] = cov.setdefault("mutators_hit", {}).get(o, 0) + 1
+        for o in rep.get("queries", []):
+            cov.setdefault("queries_hit", {})[o] = cov.setdefault("queries_hit", {}).get(o, 0) + 1
         for k, v in rep["outcomes"].items():
             cov.setdefault("outcomes_hit", {})[k] = cov.setdefault("outcomes_hit", {}).get(k, 0) + v
         for pl in rep["plural"]:
@@ -339,46 +375,6 @@ def evaluate(ctx, cases, judge):
         judge.report(c, rep)
 
 
-# --------------------------------------------------------------------------- readout arity (R vs S only)
-
-
-def arity_stratum(ctx):
-    """`_create_cache` also checks the arity of readout functions, which the Lean model does not carry.
-    Query, add a readout whose function takes two arguments for one name, query again: R must answer as S."""
-    import warnings
-
-    warnings.filterwarnings("ignore")
-    from mxlpy import Model
-
-    def build():
-        m = Model()
-        for op in G.BASE:
-            O.apply_mut(m, op)
-        return m
-
-    bad = O.mkfn(["+", ["a", 0], ["a", 1]], 2)
-    for q in G.QUERIES[:4]:
-        m = build()
-        O.run_query(m, q)
-        m.add_readout("n1", fn=bad, args=["x"])
-        r = O.run_query(m, q)
-        f = build()
-        f.add_readout("n1", fn=bad, args=["x"])
-        s = O.run_query(f, q)
-        case = {"ops": ["BASE", q, ["add_readout", "n1", "two-argument function", ["x"]], q]}
-        ctx.count(case, "arity:add_readout")
-        ctx.judge(case, r, s, None, what="query after add_readout with an arity mismatch")
-        m = build()
-        m.add_readout("n1", fn=bad, args=["x"])
-        O.run_query(m, q)
-        m.remove_readout("n1")
-        r = O.run_query(m, q)
-        s = O.run_query(build(), q)
-        case = {"ops": ["BASE", ["add_readout", "n1", "two-argument function", ["x"]], q, ["remove_readout", "n1"], q]}
-        ctx.count(case, "arity:remove_readout")
-        ctx.judge(case, r, s, None, what="query after remove_readout of an arity mismatch")
-
-
 # --------------------------------------------------------------------------- entry points
 
 
@@ -388,7 +384,8 @@ def setup(ctx):
     ctx.translate(T.generate)
     ctx.build(PROPS)
     ctx.rule = (
-        "op histories over all 30 public Model mutators (valid and invalid arguments) and 10 query forms; distinct = "
+        "op histories over all 30 public Model mutators (valid and invalid arguments, keyword / object variants, "
+        "functions with stated signatures) and 35 query forms, deep copies; distinct = "
         "distinct op lists; non-trivial = contains at least one mutator after the build prefix. Exhaustive stratum "
         "(seed-independent): build; q1|none; m; q2; battery for every mutator x every listed argument choice x "
         "(none + 2 query forms in quick, none + 10 in thorough) x 10 query forms (incl. get_stoichiometries[_of_variable])."
@@ -396,7 +393,9 @@ def setup(ctx):
     ctx.assumptions += [
         "data sets are scalars (the Model stores whatever object it is given; pandas objects are not modelled)",
         "units / sources of components are not modelled; functions are total (+ - * on dyadic rationals)",
-        "function-arity checks are not in the Lean model; the readout arity path is covered by an R-vs-S stratum only",
+        "the functions of surrogates and of computed stoichiometric coefficients are called with as many values as they "
+        "take (no arity check exists for them in the code); functions with a stated signature are either rejected by "
+        "the arity check or callable with their argument list",
     ]
     ctx.trusted_base += [
         "translate/c03.py: reads decorator lists and the order of self._ids / container statements of every public "
@@ -412,7 +411,7 @@ def run(ctx):
               for e in list(ctx.fixed.values()) + list(ctx.known.values())
               if e.get("witness", {}).get("ops") and e["witness"]["ops"][0] != "BASE"]
     evaluate(ctx, corpus, judge)
-    arity_stratum(ctx)
+    evaluate(ctx, list(G.arity_histories()) + list(G.extra_histories()), judge)
     ctx.exhaustive = True
     thorough = ctx.tier == "thorough"
     cur = []
@@ -423,6 +422,9 @@ def run(ctx):
             cur = []
     if cur:
         evaluate(ctx, cur, judge)
+    p2 = list(G.pairs2())
+    for i in range(0, len(p2), 400):
+        evaluate(ctx, p2[i:i + 400], judge)
     # a broken proof / drifting model without a failing input so far: widen the search (thorough generator)
     widen = thorough or ((not ctx.proof_ok or bool(ctx.drift)) and not ctx.violations)
     if widen and not thorough:
@@ -449,8 +451,8 @@ def replay(ctx, rp):
     case = rp["case"]
     ops = case["ops"]
     if ops and ops[0] == "BASE":
-        print("arity stratum replay: re-running the stratum")
-        arity_stratum(ctx)
+        print("replay of the former R-vs-fresh arity stratum: the arity histories are part of the stream now")
+        evaluate(ctx, list(G.arity_histories()), Judge(ctx))
         return
     R, S = run_history({"ops": ops, "check_from": 0})
     M = model_histories([{"ops": ops}])[0] if ctx.driver_ok else None
